@@ -1,4 +1,4 @@
-From Coq Require Import ZArith List Bool Lia.
-From FV Require Import C11.Spec C11.Model.
-Import ListNotations.
-Open Scope Z_scope.
+(* C11 — the lemmas live in Sorted.v (order, strictly sorted lists, the reference ranking),
+   Scans.v (what the level-0 scans compute) and Refine.v (invariant, per-operation
+   refinement, the theorems); this file gathers them for Properties.v. *)
+From FV Require Export C11.Sorted C11.Scans C11.Refine.
